@@ -1,4 +1,1818 @@
 package main
 
-// genFilterClause: placeholder until the translation of this part of the library is written (an empty generated file).
-func genFilterClause() string { return "" }
+// Translation of the filter clause trees of filter.go (package qframe), of QFrame.Filter (qframe.go) and of
+// internal/index/index.go into Gallina (coq/Gen/GenFilterClause.v, tie T1 for the filter clauses).
+//
+// The functions listed in gcSpecs are translated statement by statement into definitions gc_<name>.
+// coq/Proofs/GenFilterClauseProofs.v proves every generated definition equal to the hand-written model of
+// coq/Model/Filter.v (frame_filter / clause_filter / and_loop / or_loop / or_frames / not_merge / index_filter),
+// so that an edit of filter.go or index.go changes the generated text and breaks a named theorem
+// T1_filter_<name> of coq/Properties/T1Filter.v, while the theorems of C02 / C10 / C17 keep talking about the model.
+//
+// THE SCHEME (anything that does not fit is reported through problem(...); the block then keeps the text of the
+// golden copy, marked FALLBACK, so that the development still builds — the exit status says the tie is broken).
+//
+//	boundary    The column level is NOT translated: qf.filter(filters...) (qframe.go, with Column.Filter below it)
+//	            is the section variable  qf_filter : F -> list L -> outcome F  (model counterpart: filter_leaves).
+//	            The signature of QFrame.filter is text-matched.  It must not retain the slice it is given
+//	            (OrClause.filter reuses the backing array after filters = filters[:0]).
+//	frames      QFrame is the abstract type F; the translated code touches a frame only through
+//	              qf.Err            -> qf_Err qf : option E          qf.index         -> qf_index qf : list A
+//	              qf.withErr(e)     -> qf_withErr qf e               qf.withIndex(ix) -> qf_withIndex qf ix
+//	            (section variables; the bodies of withErr / withIndex are text-matched).
+//	            *QFrame -> option F (nil = None).  &x -> Some x, *p and p.f -> gc_deref p (Panic for nil).  This
+//	            value reading of pointers is exact because no pointee is ever written: the translator checks
+//	            that a variable whose address is taken is never assigned and rejects stores through pointers.
+//	errors      error -> option E (nil = None), E abstract; qerrors.New(op, reason) -> Some (new_error op reason)
+//	            with the two string literals as byte strings; e != nil -> negb (gc_isnil e).
+//	leaves      Filter and filter.Filter (type Filter filter.Filter, text-matched) are the abstract type L; the
+//	            conversions between them are the identity; the only field touched is Inverse:
+//	              f.Inverse -> l_Inverse f,   f.Inverse = e -> let f := l_set_Inverse f e.
+//	row ids     The elements of index.Int are the abstract type A (id0 its zero value, eqb its ==); the
+//	            translator type-checks that an id is never used as a number.  Exception: in the functions listed
+//	            in gcNumericIds (NewAscending) index.Int is list Z and uint32(e) is the wrap gc_u32.
+//	integers    Go int -> Z, exact (positions, lengths, counters; overflow of int is outside the translation as
+//	            it is outside the model); x > y is (y <? x); integer.Max -> Z.max (body text-matched); len(s) and
+//	            s.Len() (body text-matched) -> Z.of_nat (length s).
+//	slices      []T -> list T; nil and the empty slice are both [].  make(T, n [, c]) -> gc_make zero n c (Panic
+//	            for a negative length or c < n), make(T, 0, c) -> gc_make0 c (Panic for negative c), make(T, 0)
+//	            -> []; s[i] -> gc_index s i, s[i] = v -> gc_update s i v (Panic outside the range);
+//	            append(s, x) -> s ++ [x]; s[:0] -> []; copy(d, s) -> let d := gc_copy d s; f(s...) passes s.
+//	interface   FilterClause is the closed sum of the types of the package that have the methods filter and
+//	            Err: Inductive gc_FilterClause with one constructor gc_mk_<T> per implementer whose arguments are
+//	            the fields of the struct (type T comboClause is resolved; Filter is the opaque L).  A clause VALUE
+//	            is a finite tree (a Go program can build a cyclic one by writing into the slice it handed to
+//	            And / Or afterwards: outside the translation).  A composite literal T{f: e} is the constructor
+//	            with the missing fields zero.  The receiver of a method of T is passed as its fields (c_<field>).
+//	            x.m(..) with x of interface type is dynamic dispatch: Fixpoint gc_FilterClause_<m> by structural
+//	            recursion over the clause, one branch per implementer calling gc_<T>_<m>.  Inside the methods
+//	            of the group being defined the dispatcher is the first argument  self  (kept outside the loop
+//	            fixpoints so that the termination checker sees through them); the groups are defined in the
+//	            order Err, filter.  if v, ok := x.(Filter); ok { A } else { B } -> match x with gc_mk_Filter v => A
+//	            | _ => B end.
+//	results     every function answers outcome T (Panic = Go panic).  There is NO fuel: all loops are range loops
+//	            over a slice evaluated once and all recursion is structural over the clause value.
+//	statements  x := e; a, b := e1, e2; var x T; x = e; x++; x.Inverse = e; s[i] = e; copy(..) -> let / do.
+//	conditions  a && b, a || b are if-then-else (Go's short circuit); when b can panic the whole condition is
+//	            bound first:  do t <- (if a then (..; Ok b) else Ok false).
+//	if          no return inside: do (assigned outer variables) <- (if c then ..; Ok (..) else ..; Ok (..)); rest
+//	            otherwise the rest of the block is continued inside the branches that fall through.
+//	range       for i, v := range X { body }: Definition gc_f_loopN [self] := fix loop (l : list T) [(v_i : Z)]
+//	            (variables it mentions) {struct l}, numbered in order of completion; [] => EXIT, v :: l' => body;
+//	            loop l' [(v_i + 1)] (current values).  A loop without return answers the outer variables it
+//	            assigns (EXIT = Ok (those)).  A loop with a return inside (only at the top level of a function)
+//	            also contains the statements that follow it (EXIT = the rest of the function).  When the value
+//	            variable is used the body must not store into X.
+//	rejected    for with a condition, break, continue, goto, labels, switch, defer, closures, maps, stores
+//	            through pointers, assignment to an inner variable that shadows an outer one, everything else.
+
+import (
+	"bytes"
+	"flag"
+	"fmt"
+	"go/ast"
+	"go/printer"
+	"go/token"
+	"os"
+	"path/filepath"
+	"strings"
+)
+
+const gcRoot = "." // package qframe
+const gcIndexPkg = "internal/index"
+
+type gcSpec struct {
+	pkg, fn string
+}
+
+// in emission order: index, (the Inductive), free functions without dispatch, the Err group, the filter group,
+// the functions that use the dispatchers
+var gcIndexSpecs = []gcSpec{{gcIndexPkg, "NewBool"}, {gcIndexPkg, "NewAscending"}, {gcIndexPkg, "Int.Filter"}, {gcIndexPkg, "Int.Copy"}}
+var gcEarlySpecs = []gcSpec{{gcRoot, "orFrames"}}
+var gcGroups = []string{"Err", "filter"}
+var gcLateSpecs = []gcSpec{{gcRoot, "anyFilterErr"}, {gcRoot, "And"}, {gcRoot, "Or"}, {gcRoot, "Not"}, {gcRoot, "Null"}, {gcRoot, "QFrame.Filter"}}
+
+var gcNumericIds = map[string]bool{"NewAscending": true}
+
+// the text the fixed vocabulary stands for (printed by go/printer)
+var gcVocabulary = []struct{ pkg, fn, text string }{
+	{gcRoot, "QFrame.withErr", "func (qf QFrame) withErr(err error) QFrame {\n\treturn QFrame{Err: err, columns: qf.columns, columnsByName: qf.columnsByName, index: qf.index}\n}"},
+	{gcRoot, "QFrame.withIndex", "func (qf QFrame) withIndex(ix index.Int) QFrame {\n\treturn QFrame{Err: qf.Err, columns: qf.columns, columnsByName: qf.columnsByName, index: ix}\n}"},
+	{gcRoot, "QFrame.filter", "func (qf QFrame) filter(filters ...filter.Filter) QFrame"},
+	{gcIndexPkg, "Int.Len", "func (ix Int) Len() int {\n\treturn len(ix)\n}"},
+	{gcIndexPkg, "Bool.Len", "func (ix Bool) Len() int {\n\treturn len(ix)\n}"},
+	{"internal/math/integer", "Max", "func Max(x, y int) int {\n\tif x > y {\n\t\treturn x\n\t}\n\treturn y\n}"},
+	{"qerrors", "New", "func New(operation, reason string, params ...interface{}) Error"},
+}
+
+const gcPreamble = `(* GENERATED by tools/qf2coq (filterclause.go) from filter.go, qframe.go (QFrame.Filter) and
+   internal/index/index.go of tobgu/qframe — do not edit.
+   One definition gc_<function> per translated Go function, one Definition gc_<function>_loopN (a fix over the
+   ranged list) per loop, Inductive gc_FilterClause for the interface FilterClause and one structural Fixpoint
+   gc_FilterClause_<method> per interface method; the scheme is described at the top of
+   tools/qf2coq/filterclause.go.  F = QFrame, A = row id, E = error value, L = filter.Filter are abstract; the
+   column level qf.filter(filters...) is the variable qf_filter.  Every function answers outcome T (Panic = Go
+   panic); there is no fuel: every loop ranges over a list and the recursion over clauses is structural. *)
+From QF Require Import Base.Prelude.
+Local Open Scope Z_scope.
+
+(* uint32(e) *)
+Definition gc_u32 (x : Z) : Z := x mod 4294967296.
+(* make([]T, n, c), make([]T, 0, c), s[i], s[i] = v, copy(d, s) *)
+Definition gc_make {T : Type} (zero : T) (n c : Z) : outcome (list T) :=
+  if (n <? 0) || (c <? n) then Panic else Ok (repeat zero (Z.to_nat n)).
+Definition gc_make0 {T : Type} (c : Z) : outcome (list T) :=
+  if c <? 0 then Panic else Ok [].
+Definition gc_index {T : Type} (s : list T) (i : Z) : outcome T :=
+  if i <? 0 then Panic else idx s (Z.to_nat i).
+Definition gc_update {T : Type} (s : list T) (i : Z) (v : T) : outcome (list T) :=
+  if i <? 0 then Panic else do _ <- idx s (Z.to_nat i); Ok (set_nth s (Z.to_nat i) v).
+Definition gc_copy {T : Type} (d s : list T) : list T :=
+  firstn (length d) s ++ skipn (length s) d.
+(* x == nil for an error or a pointer, *p *)
+Definition gc_isnil {T : Type} (p : option T) : bool := match p with None => true | Some _ => false end.
+Definition gc_deref {T : Type} (p : option T) : outcome T := match p with Some x => Ok x | None => Panic end.
+
+Section GenFilterClause.
+Context {A E L F : Type}.
+Variable id0 : A.                                   (* the zero value of a row id *)
+Variable eqb : A -> A -> bool.                      (* == on row ids *)
+Variable new_error : bytes -> bytes -> E.           (* qerrors.New(operation, reason) *)
+Variable qf_Err : F -> option E.                    (* qf.Err *)
+Variable qf_index : F -> list A.                    (* qf.index *)
+Variable qf_withErr : F -> option E -> F.           (* qf.withErr(err) *)
+Variable qf_withIndex : F -> list A -> F.           (* qf.withIndex(ix) *)
+Variable qf_filter : F -> list L -> outcome F.      (* qf.filter(filters...): the column level *)
+Variable l_Inverse : L -> bool.                     (* f.Inverse *)
+Variable l_set_Inverse : L -> bool -> L.            (* f.Inverse = b *)
+
+`
+
+// ------------------------------------------------------------------ types
+
+type gcT struct {
+	k     string // int u32 bool id ids nums bools frame pframe err leaf leaves clause clauses string struct nil unit
+	sname string // struct: the implementer
+}
+
+func gcK(k string) *gcT { return &gcT{k: k} }
+
+var gcBad = gcK("bad")
+
+func (t *gcT) same(u *gcT) bool { return t.k == u.k && t.sname == u.sname }
+
+func (t *gcT) coq() string {
+	switch t.k {
+	case "int", "u32":
+		return "Z"
+	case "bool":
+		return "bool"
+	case "id":
+		return "A"
+	case "ids":
+		return "(list A)"
+	case "nums":
+		return "(list Z)"
+	case "bools":
+		return "(list bool)"
+	case "frame":
+		return "F"
+	case "pframe":
+		return "(option F)"
+	case "err":
+		return "(option E)"
+	case "leaf":
+		return "L"
+	case "leaves":
+		return "(list L)"
+	case "clause", "struct":
+		return "gc_FilterClause"
+	case "clauses":
+		return "(list gc_FilterClause)"
+	case "string":
+		return "bytes"
+	case "unit":
+		return "unit"
+	}
+	return "?"
+}
+
+// element type and zero of a slice type
+func (t *gcT) elem() *gcT {
+	switch t.k {
+	case "ids":
+		return gcK("id")
+	case "nums":
+		return gcK("u32")
+	case "bools":
+		return gcK("bool")
+	case "leaves":
+		return gcK("leaf")
+	case "clauses":
+		return gcK("clause")
+	}
+	return nil
+}
+
+func (t *gcT) zero() (string, bool) {
+	switch t.k {
+	case "int", "u32":
+		return "0", true
+	case "bool":
+		return "false", true
+	case "id":
+		return "id0", true
+	case "ids", "nums", "bools", "leaves", "clauses":
+		return "[]", true
+	case "pframe", "err":
+		return "None", true
+	}
+	return "", false
+}
+
+type gcField struct {
+	name string
+	ty   *gcT
+}
+
+type gcImpl struct {
+	name   string
+	opaque bool // Filter: one argument of type L
+	fields []gcField
+}
+
+var gcImpls []*gcImpl
+
+func gcImplOf(name string) *gcImpl {
+	for _, im := range gcImpls {
+		if im.name == name {
+			return im
+		}
+	}
+	return nil
+}
+
+func gcSrc(fset *token.FileSet, n ast.Node) string {
+	var b bytes.Buffer
+	printer.Fprint(&b, fset, n)
+	return b.String()
+}
+
+// gcResolve maps a Go type expression to a translation type
+func gcResolve(pkg string, numeric bool, src string) *gcT {
+	if pkg == gcIndexPkg {
+		switch src {
+		case "Int":
+			if numeric {
+				return gcK("nums")
+			}
+			return gcK("ids")
+		case "Bool":
+			return gcK("bools")
+		case "int":
+			return gcK("int")
+		case "uint32":
+			if numeric {
+				return gcK("u32")
+			}
+			return gcK("id")
+		case "bool":
+			return gcK("bool")
+		}
+		return gcBad
+	}
+	switch src {
+	case "QFrame":
+		return gcK("frame")
+	case "*QFrame":
+		return gcK("pframe")
+	case "error":
+		return gcK("err")
+	case "FilterClause":
+		return gcK("clause")
+	case "[]FilterClause", "...FilterClause":
+		return gcK("clauses")
+	case "Filter", "filter.Filter":
+		return gcK("leaf")
+	case "[]filter.Filter", "...filter.Filter":
+		return gcK("leaves")
+	case "index.Int":
+		return gcK("ids")
+	case "int":
+		return gcK("int")
+	case "bool":
+		return gcK("bool")
+	case "string":
+		return gcK("string")
+	}
+	if gcImplOf(src) != nil {
+		return &gcT{k: "struct", sname: src}
+	}
+	return gcBad
+}
+
+// gcLoadImpls finds the implementers of FilterClause (types with methods filter and Err) in source order and
+// resolves their fields.
+func gcLoadImpls(p *pkgInfo) bool {
+	gcImpls = nil
+	okAll := true
+	f, found := p.files["filter.go"]
+	if !found {
+		problem("filter clause translation: filter.go not found")
+		return false
+	}
+	decls := map[string]ast.Expr{}
+	var order []string
+	for _, d := range f.Decls {
+		gd, ok := d.(*ast.GenDecl)
+		if !ok || gd.Tok != token.TYPE {
+			continue
+		}
+		for _, s := range gd.Specs {
+			ts := s.(*ast.TypeSpec)
+			decls[ts.Name.Name] = ts.Type
+			order = append(order, ts.Name.Name)
+		}
+	}
+	if it, ok := decls["FilterClause"].(*ast.InterfaceType); !ok || gcSrc(p.fset, it) != "interface {\n\tfmt.Stringer\n\tfilter(qf QFrame) QFrame\n\tErr() error\n}" {
+		problem("filter clause translation: the interface FilterClause is not the one the translation stands for (fmt.Stringer, filter(qf QFrame) QFrame, Err() error)")
+		okAll = false
+	}
+	var names []string
+	for _, n := range order {
+		if p.funcs[n+".filter"] != nil && p.funcs[n+".Err"] != nil {
+			names = append(names, n)
+			gcImpls = append(gcImpls, &gcImpl{name: n})
+		}
+	}
+	for _, im := range gcImpls {
+		e := decls[im.name]
+		if id, ok := e.(*ast.Ident); ok { // type T comboClause
+			if e2, ok := decls[id.Name]; ok {
+				e = e2
+			}
+		}
+		switch t := e.(type) {
+		case *ast.StructType:
+			for _, fl := range t.Fields.List {
+				ty := gcResolve(gcRoot, false, gcSrc(p.fset, fl.Type))
+				if ty.k == "bad" || len(fl.Names) == 0 {
+					problem("filter clause translation: field of %s has a type outside the scheme: %s", im.name, gcSrc(p.fset, fl.Type))
+					okAll = false
+					continue
+				}
+				for _, n := range fl.Names {
+					im.fields = append(im.fields, gcField{n.Name, ty})
+				}
+			}
+		case *ast.SelectorExpr:
+			if gcSrc(p.fset, t) == "filter.Filter" {
+				im.opaque = true
+			} else {
+				problem("filter clause translation: implementer %s has a type outside the scheme", im.name)
+				okAll = false
+			}
+		default:
+			problem("filter clause translation: implementer %s has a type outside the scheme", im.name)
+			okAll = false
+		}
+	}
+	_ = names
+	return okAll
+}
+
+func gcInductive() string {
+	var b strings.Builder
+	b.WriteString("(* the implementers of FilterClause (types with the methods filter and Err), in source order *)\n")
+	b.WriteString("Inductive gc_FilterClause : Type :=\n")
+	for _, im := range gcImpls {
+		fmt.Fprintf(&b, "| gc_mk_%s", im.name)
+		if im.opaque {
+			b.WriteString(" (x : L)")
+		}
+		for _, f := range im.fields {
+			fmt.Fprintf(&b, " (%s : %s)", f.name, f.ty.coq())
+		}
+		b.WriteString("\n")
+	}
+	s := b.String()
+	return strings.TrimRight(s, "\n") + ".\n"
+}
+
+// ------------------------------------------------------------------ translation state
+
+type gcVar struct {
+	name string // Go name
+	coq  string // Coq name (unused for a struct receiver, whose fields are <name>_<field>)
+	ty   *gcT
+}
+
+type gcFunc struct {
+	spec      gcSpec
+	short     string // Go name without the receiver
+	fd        *ast.FuncDecl
+	coq       string
+	recv      *gcVar
+	params    []gcVar
+	res       *gcT
+	group     string // "Err" / "filter" for the methods of the implementers
+	impl      *gcImpl
+	numeric   bool
+	needsSelf bool
+	text      string
+	ok, done  bool
+}
+
+var gcFuncs map[string]*gcFunc // by "pkg:Name"
+
+type gcCtx struct {
+	vars []gcVar
+	top  bool // the continuation of this block is the tail of the function
+}
+
+type gcTr struct {
+	p        *pkgInfo
+	f        *gcFunc
+	bad      bool
+	ntmp     int
+	loops    []string
+	nloops   int
+	usesSelf bool
+	addrOf   map[string]bool
+}
+
+func (t *gcTr) fail(n ast.Node, format string, a ...interface{}) {
+	if !t.bad {
+		pos := ""
+		if n != nil {
+			pos = t.p.fset.Position(n.Pos()).String()
+			pos = strings.TrimPrefix(pos, repo+"/") + ": "
+		}
+		problem("filter clause translation of %s: %s%s", t.f.spec.fn, pos, fmt.Sprintf(format, a...))
+	}
+	t.bad = true
+}
+
+func (t *gcTr) src(n ast.Node) string { return gcSrc(t.p.fset, n) }
+
+func (t *gcTr) tmp() string {
+	t.ntmp++
+	return fmt.Sprintf("t%d", t.ntmp)
+}
+
+func (c gcCtx) lookup(name string) (gcVar, bool) {
+	for i := len(c.vars) - 1; i >= 0; i-- {
+		if c.vars[i].name == name {
+			return c.vars[i], true
+		}
+	}
+	return gcVar{}, false
+}
+
+func gcTuple(parts []string) string {
+	if len(parts) == 0 {
+		return "tt"
+	}
+	if len(parts) == 1 {
+		return parts[0]
+	}
+	return "(" + strings.Join(parts, ", ") + ")"
+}
+
+func gcTypeTuple(parts []string) string {
+	if len(parts) == 0 {
+		return "unit"
+	}
+	if len(parts) == 1 {
+		return parts[0]
+	}
+	return "(" + strings.Join(parts, " * ") + ")"
+}
+
+func (t *gcTr) resolve(e ast.Expr) *gcT {
+	ty := gcResolve(t.f.spec.pkg, t.f.numeric, t.src(e))
+	if ty.k == "bad" {
+		t.fail(e, "type outside the scheme: %s", t.src(e))
+	}
+	return ty
+}
+
+// coerce checks that a value of type have can stand where want is expected (nil, struct -> clause)
+func (t *gcTr) coerce(n ast.Node, text string, have, want *gcT) string {
+	if have.k == "bad" || want.k == "bad" {
+		return text
+	}
+	if have.same(want) {
+		return text
+	}
+	if have.k == "nil" && (want.k == "err" || want.k == "pframe") {
+		return "None"
+	}
+	if have.k == "struct" && want.k == "clause" {
+		return text
+	}
+	if have.k == "int" && want.k == "u32" && strings.Trim(text, "0123456789") == "" { // an untyped constant
+		return text
+	}
+	t.fail(n, "a value of type %s%s stands where %s%s is expected: %s", have.k, have.sname, want.k, want.sname, t.src(n))
+	return text
+}
+
+// frameOf gives the text of a frame for an expression of type frame or pframe (dereferenced)
+func (t *gcTr) frameOf(e ast.Expr, c gcCtx, pre *[]string) (string, bool) {
+	x, ty := t.expr(e, c, pre)
+	switch ty.k {
+	case "frame":
+		return x, true
+	case "pframe":
+		v := t.tmp()
+		*pre = append(*pre, fmt.Sprintf("do %s <- gc_deref %s;", v, x))
+		return v, true
+	}
+	return x, false
+}
+
+func (t *gcTr) callText(g *gcFunc, n ast.Node, recvArgs []string, args []string) string {
+	if !g.done || !g.ok && g.text == "" {
+		t.fail(n, "call of %s, which is not translated before this function", g.spec.fn)
+	}
+	parts := []string{g.coq}
+	if g.needsSelf {
+		if g.group == t.f.group && g.group != "" {
+			parts = append(parts, "self")
+			t.usesSelf = true
+		} else {
+			parts = append(parts, "gc_FilterClause_"+g.group)
+		}
+	}
+	parts = append(parts, recvArgs...)
+	parts = append(parts, args...)
+	return strings.Join(parts, " ")
+}
+
+func (t *gcTr) args(g *gcFunc, ce *ast.CallExpr, c gcCtx, pre *[]string) []string {
+	var out []string
+	if len(ce.Args) != len(g.params) {
+		t.fail(ce, "call of %s with %d arguments (it has %d parameters)", g.spec.fn, len(ce.Args), len(g.params))
+		return out
+	}
+	variadic := false
+	if n := len(g.fd.Type.Params.List); n > 0 {
+		_, variadic = g.fd.Type.Params.List[n-1].Type.(*ast.Ellipsis)
+	}
+	if variadic != ce.Ellipsis.IsValid() {
+		t.fail(ce, "a variadic parameter must be passed as s...")
+	}
+	for i, a := range ce.Args {
+		x, ty := t.expr(a, c, pre)
+		out = append(out, t.coerce(a, x, ty, g.params[i].ty))
+	}
+	return out
+}
+
+// ------------------------------------------------------------------ expressions
+
+func (t *gcTr) expr(e ast.Expr, c gcCtx, pre *[]string) (string, *gcT) {
+	switch x := e.(type) {
+	case *ast.ParenExpr:
+		return t.expr(x.X, c, pre)
+	case *ast.BasicLit:
+		switch x.Kind {
+		case token.INT:
+			if strings.Trim(x.Value, "0123456789") == "" {
+				return x.Value, gcK("int")
+			}
+		case token.STRING:
+			if len(x.Value) >= 2 && (x.Value[0] == '"' || x.Value[0] == '`') && !strings.Contains(x.Value, "\\") {
+				return coqBytes(x.Value[1 : len(x.Value)-1]), gcK("string")
+			}
+		}
+		t.fail(e, "literal outside the scheme: %s", x.Value)
+		return "0", gcBad
+	case *ast.Ident:
+		switch x.Name {
+		case "nil":
+			return "None", gcK("nil")
+		case "true", "false":
+			if _, shadowed := c.lookup(x.Name); !shadowed {
+				return x.Name, gcK("bool")
+			}
+		}
+		v, ok := c.lookup(x.Name)
+		if !ok {
+			t.fail(e, "unknown identifier %s", x.Name)
+			return "0", gcBad
+		}
+		if v.ty.k == "struct" && v.coq == "" {
+			t.fail(e, "the receiver %s is used as a value", x.Name)
+			return "0", gcBad
+		}
+		return v.coq, v.ty
+	case *ast.SelectorExpr:
+		if id, ok := x.X.(*ast.Ident); ok {
+			if v, ok := c.lookup(id.Name); ok && v.ty.k == "struct" && v.coq == "" {
+				for _, f := range gcImplOf(v.ty.sname).fields {
+					if f.name == x.Sel.Name {
+						return v.name + "_" + f.name, f.ty
+					}
+				}
+				t.fail(e, "unknown field %s", t.src(e))
+				return "0", gcBad
+			}
+		}
+		var pre2 []string
+		if fr, ok := t.frameOf(x.X, c, &pre2); ok {
+			*pre = append(*pre, pre2...)
+			switch x.Sel.Name {
+			case "Err":
+				return "(qf_Err " + fr + ")", gcK("err")
+			case "index":
+				return "(qf_index " + fr + ")", gcK("ids")
+			}
+			t.fail(e, "field of QFrame outside the vocabulary: %s", x.Sel.Name)
+			return "0", gcBad
+		}
+		y, ty := t.expr(x.X, c, pre)
+		if ty.k == "leaf" && x.Sel.Name == "Inverse" {
+			return "(l_Inverse " + y + ")", gcK("bool")
+		}
+		t.fail(e, "selector outside the scheme: %s", t.src(e))
+		return "0", gcBad
+	case *ast.UnaryExpr:
+		switch x.Op {
+		case token.NOT:
+			y, ty := t.expr(x.X, c, pre)
+			t.coerce(x.X, y, ty, gcK("bool"))
+			return "(negb " + y + ")", gcK("bool")
+		case token.AND:
+			id, ok := x.X.(*ast.Ident)
+			if !ok {
+				t.fail(e, "& of something that is not a variable")
+				return "None", gcBad
+			}
+			y, ty := t.expr(id, c, pre)
+			t.coerce(x.X, y, ty, gcK("frame"))
+			t.addrOf[id.Name] = true
+			return "(Some " + y + ")", gcK("pframe")
+		}
+	case *ast.StarExpr:
+		y, ty := t.expr(x.X, c, pre)
+		t.coerce(x.X, y, ty, gcK("pframe"))
+		v := t.tmp()
+		*pre = append(*pre, fmt.Sprintf("do %s <- gc_deref %s;", v, y))
+		return v, gcK("frame")
+	case *ast.IndexExpr:
+		s, ty := t.expr(x.X, c, pre)
+		i, ti := t.expr(x.Index, c, pre)
+		t.coerce(x.Index, i, ti, gcK("int"))
+		el := ty.elem()
+		if el == nil {
+			t.fail(e, "index into something that is not a slice: %s", t.src(e))
+			return "0", gcBad
+		}
+		v := t.tmp()
+		*pre = append(*pre, fmt.Sprintf("do %s <- gc_index %s %s;", v, s, i))
+		return v, el
+	case *ast.SliceExpr:
+		if x.Low == nil && x.High != nil && t.src(x.High) == "0" && x.Max == nil {
+			_, ty := t.expr(x.X, c, pre)
+			if ty.elem() != nil {
+				return "[]", ty
+			}
+		}
+		t.fail(e, "slice expression outside the scheme: %s", t.src(e))
+		return "[]", gcBad
+	case *ast.CompositeLit:
+		im := gcImplOf(t.src(x.Type))
+		if im == nil || im.opaque {
+			t.fail(e, "composite literal outside the scheme: %s", t.src(e))
+			return "0", gcBad
+		}
+		vals := map[string]string{}
+		for _, el := range x.Elts {
+			kv, ok := el.(*ast.KeyValueExpr)
+			if !ok {
+				t.fail(el, "composite literal without field names")
+				continue
+			}
+			name := t.src(kv.Key)
+			found := false
+			for _, f := range im.fields {
+				if f.name == name {
+					found = true
+					y, ty := t.expr(kv.Value, c, pre)
+					vals[name] = t.coerce(kv.Value, y, ty, f.ty)
+				}
+			}
+			if !found {
+				t.fail(el, "unknown field %s", name)
+			}
+		}
+		parts := []string{"gc_mk_" + im.name}
+		for _, f := range im.fields {
+			if v, ok := vals[f.name]; ok {
+				parts = append(parts, v)
+			} else if z, ok := f.ty.zero(); ok {
+				parts = append(parts, z)
+			} else {
+				t.fail(e, "field %s without a value has no zero in the scheme", f.name)
+			}
+		}
+		if len(parts) == 1 {
+			return parts[0], &gcT{k: "struct", sname: im.name}
+		}
+		return "(" + strings.Join(parts, " ") + ")", &gcT{k: "struct", sname: im.name}
+	case *ast.BinaryExpr:
+		return t.binary(x, c, pre)
+	case *ast.CallExpr:
+		return t.call(x, c, pre)
+	}
+	t.fail(e, "expression outside the scheme: %s", t.src(e))
+	return "0", gcBad
+}
+
+func (t *gcTr) binary(x *ast.BinaryExpr, c gcCtx, pre *[]string) (string, *gcT) {
+	if x.Op == token.LAND || x.Op == token.LOR {
+		a, ta := t.expr(x.X, c, pre)
+		t.coerce(x.X, a, ta, gcK("bool"))
+		var preB []string
+		b, tb := t.expr(x.Y, c, &preB)
+		t.coerce(x.Y, b, tb, gcK("bool"))
+		if len(preB) == 0 {
+			if x.Op == token.LAND {
+				return fmt.Sprintf("(if %s then %s else false)", a, b), gcK("bool")
+			}
+			return fmt.Sprintf("(if %s then true else %s)", a, b), gcK("bool")
+		}
+		v := t.tmp()
+		right := "(" + strings.Join(preB, " ") + " Ok " + b + ")"
+		if x.Op == token.LAND {
+			*pre = append(*pre, fmt.Sprintf("do %s <- (if %s then %s else Ok false);", v, a, right))
+		} else {
+			*pre = append(*pre, fmt.Sprintf("do %s <- (if %s then Ok true else %s);", v, a, right))
+		}
+		return v, gcK("bool")
+	}
+	a, ta := t.expr(x.X, c, pre)
+	b, tb := t.expr(x.Y, c, pre)
+	if ta.k == "bad" || tb.k == "bad" {
+		return "0", gcBad
+	}
+	isNum := func(k string) bool { return k == "int" }
+	switch x.Op {
+	case token.ADD, token.SUB:
+		if isNum(ta.k) && isNum(tb.k) {
+			op := "+"
+			if x.Op == token.SUB {
+				op = "-"
+			}
+			return fmt.Sprintf("(%s %s %s)", a, op, b), gcK("int")
+		}
+	case token.LSS, token.LEQ, token.GTR, token.GEQ:
+		if isNum(ta.k) && isNum(tb.k) {
+			switch x.Op {
+			case token.LSS:
+				return fmt.Sprintf("(%s <? %s)", a, b), gcK("bool")
+			case token.LEQ:
+				return fmt.Sprintf("(%s <=? %s)", a, b), gcK("bool")
+			case token.GTR:
+				return fmt.Sprintf("(%s <? %s)", b, a), gcK("bool")
+			default:
+				return fmt.Sprintf("(%s <=? %s)", b, a), gcK("bool")
+			}
+		}
+	case token.EQL, token.NEQ:
+		text := ""
+		switch {
+		case tb.k == "nil" && (ta.k == "err" || ta.k == "pframe"):
+			text = "(gc_isnil " + a + ")"
+		case ta.k == "nil" && (tb.k == "err" || tb.k == "pframe"):
+			text = "(gc_isnil " + b + ")"
+		case ta.k == "id" && tb.k == "id":
+			text = fmt.Sprintf("(eqb %s %s)", a, b)
+		case isNum(ta.k) && isNum(tb.k):
+			text = fmt.Sprintf("(%s =? %s)", a, b)
+		case ta.k == "bool" && tb.k == "bool":
+			text = fmt.Sprintf("(Bool.eqb %s %s)", a, b)
+		}
+		if text != "" {
+			if x.Op == token.NEQ {
+				text = "(negb " + text + ")"
+			}
+			return text, gcK("bool")
+		}
+	}
+	t.fail(x, "operator outside the scheme (types %s, %s): %s", ta.k, tb.k, t.src(x))
+	return "0", gcBad
+}
+
+// ------------------------------------------------------------------ calls
+
+func (t *gcTr) lookupFunc(pkg, name string) *gcFunc { return gcFuncs[pkg+":"+name] }
+
+func (t *gcTr) call(x *ast.CallExpr, c gcCtx, pre *[]string) (string, *gcT) {
+	bind := func(text string, ty *gcT) (string, *gcT) {
+		v := t.tmp()
+		*pre = append(*pre, fmt.Sprintf("do %s <- %s;", v, text))
+		return v, ty
+	}
+	fun := t.src(x.Fun)
+	if _, shadowed := c.lookup(fun); shadowed {
+		t.fail(x, "call of a variable: %s", fun)
+		return "0", gcBad
+	}
+	switch fun {
+	case "len":
+		if len(x.Args) == 1 {
+			s, ty := t.expr(x.Args[0], c, pre)
+			if ty.elem() != nil {
+				return "(Z.of_nat (length " + s + "))", gcK("int")
+			}
+		}
+		t.fail(x, "len outside the scheme: %s", t.src(x))
+		return "0", gcBad
+	case "append":
+		if len(x.Args) == 2 && !x.Ellipsis.IsValid() {
+			s, ty := t.expr(x.Args[0], c, pre)
+			v, tv := t.expr(x.Args[1], c, pre)
+			if el := ty.elem(); el != nil {
+				v = t.coerce(x.Args[1], v, tv, el)
+				return "(" + s + " ++ [" + v + "])", ty
+			}
+		}
+		t.fail(x, "append outside the scheme: %s", t.src(x))
+		return "[]", gcBad
+	case "make":
+		if len(x.Args) == 2 || len(x.Args) == 3 {
+			ty := t.resolve(x.Args[0])
+			el := ty.elem()
+			if el == nil {
+				t.fail(x, "make of something that is not a slice: %s", t.src(x))
+				return "[]", gcBad
+			}
+			n, tn := t.expr(x.Args[1], c, pre)
+			if tn.k == "u32" { // make(Int, size) with size uint32
+				tn = gcK("int")
+			}
+			t.coerce(x.Args[1], n, tn, gcK("int"))
+			if len(x.Args) == 2 && n == "0" {
+				return "[]", ty
+			}
+			if n == "0" {
+				cp, tc := t.expr(x.Args[2], c, pre)
+				t.coerce(x.Args[2], cp, tc, gcK("int"))
+				return bind("gc_make0 "+cp, ty)
+			}
+			cp := n
+			if len(x.Args) == 3 {
+				var tc *gcT
+				cp, tc = t.expr(x.Args[2], c, pre)
+				t.coerce(x.Args[2], cp, tc, gcK("int"))
+			}
+			z, ok := el.zero()
+			if !ok {
+				t.fail(x, "make of a slice whose element has no zero in the scheme: %s", t.src(x))
+			}
+			return bind(fmt.Sprintf("gc_make %s %s %s", z, n, cp), ty)
+		}
+	case "uint32":
+		if len(x.Args) == 1 && t.f.numeric {
+			y, ty := t.expr(x.Args[0], c, pre)
+			t.coerce(x.Args[0], y, ty, gcK("int"))
+			return "(gc_u32 " + y + ")", gcK("u32")
+		}
+		t.fail(x, "uint32(..) outside a function with numeric row ids")
+		return "0", gcBad
+	case "filter.Filter", "Filter":
+		if len(x.Args) == 1 {
+			y, ty := t.expr(x.Args[0], c, pre)
+			t.coerce(x.Args[0], y, ty, gcK("leaf"))
+			return y, gcK("leaf")
+		}
+	case "integer.Max":
+		if len(x.Args) == 2 {
+			a, ta := t.expr(x.Args[0], c, pre)
+			b, tb := t.expr(x.Args[1], c, pre)
+			t.coerce(x.Args[0], a, ta, gcK("int"))
+			t.coerce(x.Args[1], b, tb, gcK("int"))
+			return fmt.Sprintf("(Z.max %s %s)", a, b), gcK("int")
+		}
+	case "qerrors.New":
+		if len(x.Args) == 2 {
+			a, ta := t.expr(x.Args[0], c, pre)
+			b, tb := t.expr(x.Args[1], c, pre)
+			t.coerce(x.Args[0], a, ta, gcK("string"))
+			t.coerce(x.Args[1], b, tb, gcK("string"))
+			return fmt.Sprintf("(Some (new_error %s %s))", a, b), gcK("err")
+		}
+	}
+	// a translated free function of the package
+	if id, ok := x.Fun.(*ast.Ident); ok {
+		if g := t.lookupFunc(t.f.spec.pkg, id.Name); g != nil && g.fd != nil {
+			a := t.args(g, x, c, pre)
+			return bind(t.callText(g, x, nil, a), g.res)
+		}
+		t.fail(x, "call of a function outside the scheme: %s", fun)
+		return "0", gcBad
+	}
+	sel, ok := x.Fun.(*ast.SelectorExpr)
+	if !ok {
+		t.fail(x, "call outside the scheme: %s", t.src(x))
+		return "0", gcBad
+	}
+	m := sel.Sel.Name
+	// a method of the receiver (static)
+	if id, ok := sel.X.(*ast.Ident); ok {
+		if v, ok := c.lookup(id.Name); ok && v.ty.k == "struct" && v.coq == "" {
+			g := t.lookupFunc(t.f.spec.pkg, v.ty.sname+"."+m)
+			if g == nil || g.fd == nil {
+				t.fail(x, "call of a method outside the scheme: %s", t.src(x))
+				return "0", gcBad
+			}
+			var ra []string
+			for _, f := range gcImplOf(v.ty.sname).fields {
+				ra = append(ra, v.name+"_"+f.name)
+			}
+			a := t.args(g, x, c, pre)
+			return bind(t.callText(g, x, ra, a), g.res)
+		}
+	}
+	var preR []string
+	r, tr := t.expr(sel.X, c, &preR)
+	switch tr.k {
+	case "frame", "pframe":
+		var fr string
+		if tr.k == "pframe" {
+			fr = t.tmp()
+			preR = append(preR, fmt.Sprintf("do %s <- gc_deref %s;", fr, r))
+		} else {
+			fr = r
+		}
+		*pre = append(*pre, preR...)
+		switch m {
+		case "withErr", "withIndex":
+			if len(x.Args) == 1 {
+				a, ta := t.expr(x.Args[0], c, pre)
+				want := gcK("err")
+				if m == "withIndex" {
+					want = gcK("ids")
+				}
+				a = t.coerce(x.Args[0], a, ta, want)
+				return fmt.Sprintf("(qf_%s %s %s)", m, fr, a), gcK("frame")
+			}
+		case "filter":
+			if len(x.Args) == 1 {
+				a, ta := t.expr(x.Args[0], c, pre)
+				if x.Ellipsis.IsValid() {
+					t.coerce(x.Args[0], a, ta, gcK("leaves"))
+					return bind(fmt.Sprintf("qf_filter %s %s", fr, a), gcK("frame"))
+				}
+				t.coerce(x.Args[0], a, ta, gcK("leaf"))
+				return bind(fmt.Sprintf("qf_filter %s [%s]", fr, a), gcK("frame"))
+			}
+		}
+		t.fail(x, "method of QFrame outside the vocabulary: %s", t.src(x))
+		return "0", gcBad
+	case "ids", "nums", "bools":
+		if m == "Len" && len(x.Args) == 0 {
+			*pre = append(*pre, preR...)
+			return "(Z.of_nat (length " + r + "))", gcK("int")
+		}
+	case "clause":
+		// dynamic dispatch
+		for _, grp := range gcGroups {
+			if grp != m {
+				continue
+			}
+			*pre = append(*pre, preR...)
+			disp := "gc_FilterClause_" + m
+			if t.f.group == m {
+				disp = "self"
+				t.usesSelf = true
+			} else if !gcDispatcherDone[m] {
+				t.fail(x, "dynamic call of %s before its dispatcher is defined", m)
+			}
+			var a []string
+			var res *gcT
+			switch m {
+			case "Err":
+				if len(x.Args) != 0 {
+					t.fail(x, "Err with arguments")
+				}
+				res = gcK("err")
+			case "filter":
+				if len(x.Args) != 1 {
+					t.fail(x, "filter needs one argument")
+					return "0", gcBad
+				}
+				y, ty := t.expr(x.Args[0], c, pre)
+				a = append(a, t.coerce(x.Args[0], y, ty, gcK("frame")))
+				res = gcK("frame")
+			}
+			return bind(strings.Join(append([]string{disp, r}, a...), " "), res)
+		}
+	}
+	t.fail(x, "call outside the scheme: %s", t.src(x))
+	return "0", gcBad
+}
+
+var gcDispatcherDone = map[string]bool{}
+
+// ------------------------------------------------------------------ statements
+
+func gcContainsReturn(n ast.Node) bool {
+	found := false
+	ast.Inspect(n, func(m ast.Node) bool {
+		if _, ok := m.(*ast.ReturnStmt); ok {
+			found = true
+		}
+		return !found
+	})
+	return found
+}
+
+func gcRootIdent(e ast.Expr) string {
+	switch x := e.(type) {
+	case *ast.Ident:
+		return x.Name
+	case *ast.SelectorExpr:
+		return gcRootIdent(x.X)
+	case *ast.IndexExpr:
+		return gcRootIdent(x.X)
+	case *ast.ParenExpr:
+		return gcRootIdent(x.X)
+	case *ast.StarExpr:
+		return "*"
+	}
+	return ""
+}
+
+// assignedNames collects the names stored into and the names declared inside the nodes
+func gcAssignedNames(nodes ...ast.Node) (assigned, declared map[string]bool) {
+	assigned, declared = map[string]bool{}, map[string]bool{}
+	for _, n := range nodes {
+		ast.Inspect(n, func(m ast.Node) bool {
+			switch s := m.(type) {
+			case *ast.AssignStmt:
+				for _, l := range s.Lhs {
+					if s.Tok == token.DEFINE {
+						declared[gcRootIdent(l)] = true
+					} else {
+						assigned[gcRootIdent(l)] = true
+					}
+				}
+			case *ast.IncDecStmt:
+				assigned[gcRootIdent(s.X)] = true
+			case *ast.RangeStmt:
+				if s.Key != nil {
+					declared[gcRootIdent(s.Key)] = true
+				}
+				if s.Value != nil {
+					declared[gcRootIdent(s.Value)] = true
+				}
+			case *ast.ValueSpec:
+				for _, id := range s.Names {
+					declared[id.Name] = true
+				}
+			case *ast.CallExpr:
+				if id, ok := s.Fun.(*ast.Ident); ok && id.Name == "copy" && len(s.Args) > 0 {
+					assigned[gcRootIdent(s.Args[0])] = true
+				}
+			}
+			return true
+		})
+	}
+	delete(declared, "_")
+	return
+}
+
+// assigned: the variables of c stored into inside the nodes, in context order
+func (t *gcTr) assigned(c gcCtx, nodes ...ast.Node) []gcVar {
+	as, decl := gcAssignedNames(nodes...)
+	var out []gcVar
+	seen := map[string]bool{}
+	for i := len(c.vars) - 1; i >= 0; i-- {
+		v := c.vars[i]
+		if seen[v.name] {
+			continue
+		}
+		seen[v.name] = true
+		if as[v.name] {
+			if decl[v.name] {
+				t.fail(nodes[0], "the variable %s is stored into in a block that also declares a variable of that name", v.name)
+			}
+			if v.coq == "" {
+				t.fail(nodes[0], "store into the receiver %s", v.name)
+				continue
+			}
+			out = append([]gcVar{v}, out...)
+		}
+	}
+	if as["*"] {
+		t.fail(nodes[0], "store through a pointer")
+	}
+	return out
+}
+
+func gcCoqNames(vs []gcVar) []string {
+	var out []string
+	for _, v := range vs {
+		out = append(out, v.coq)
+	}
+	return out
+}
+
+func gcCoqTypes(vs []gcVar) []string {
+	var out []string
+	for _, v := range vs {
+		out = append(out, v.ty.coq())
+	}
+	return out
+}
+
+func (t *gcTr) declare(n ast.Node, c *gcCtx, name string, ty *gcT) string {
+	if name == "_" {
+		return "_"
+	}
+	if v, ok := c.lookup(name); ok && v.coq != "" && !v.ty.same(ty) {
+		t.fail(n, "the variable %s is declared again with another type", name)
+	}
+	c.vars = append(c.vars, gcVar{name, "v_" + name, ty})
+	return "v_" + name
+}
+
+// simple translates a statement without control flow into lines that end in "in" or ";"
+func (t *gcTr) simple(st ast.Stmt, c *gcCtx) ([]string, bool) {
+	var out []string
+	switch s := st.(type) {
+	case *ast.AssignStmt:
+		if len(s.Lhs) != len(s.Rhs) {
+			return nil, false
+		}
+		if s.Tok == token.DEFINE {
+			var texts []string
+			var tys []*gcT
+			for _, r := range s.Rhs {
+				x, ty := t.expr(r, *c, &out)
+				if ty.k == "nil" || ty.k == "bad" && !t.bad {
+					t.fail(r, "a declaration needs a typed value: %s", t.src(r))
+				}
+				texts = append(texts, x)
+				tys = append(tys, ty)
+			}
+			for i, l := range s.Lhs {
+				id, ok := l.(*ast.Ident)
+				if !ok {
+					return nil, false
+				}
+				for j := i + 1; j < len(texts); j++ {
+					if gsMentions(texts[j], "v_"+id.Name) {
+						t.fail(st, "a parallel declaration whose right side mentions a declared name")
+					}
+				}
+				ty := tys[i]
+				if ty.k == "struct" {
+					ty = gcK("clause")
+				}
+				name := t.declare(l, c, id.Name, ty)
+				out = append(out, fmt.Sprintf("let %s := %s in", name, texts[i]))
+			}
+			return out, true
+		}
+		if s.Tok != token.ASSIGN || len(s.Lhs) != 1 {
+			return nil, false
+		}
+		switch l := s.Lhs[0].(type) {
+		case *ast.Ident:
+			v, ok := c.lookup(l.Name)
+			if !ok || v.coq == "" {
+				t.fail(st, "store into something that is not a variable: %s", l.Name)
+				return out, true
+			}
+			x, ty := t.expr(s.Rhs[0], *c, &out)
+			x = t.coerce(s.Rhs[0], x, ty, v.ty)
+			out = append(out, fmt.Sprintf("let %s := %s in", v.coq, x))
+			return out, true
+		case *ast.SelectorExpr:
+			if id, ok := l.X.(*ast.Ident); ok && l.Sel.Name == "Inverse" {
+				if v, ok := c.lookup(id.Name); ok && v.ty.k == "leaf" {
+					x, ty := t.expr(s.Rhs[0], *c, &out)
+					t.coerce(s.Rhs[0], x, ty, gcK("bool"))
+					out = append(out, fmt.Sprintf("let %s := l_set_Inverse %s %s in", v.coq, v.coq, x))
+					return out, true
+				}
+			}
+		case *ast.IndexExpr:
+			if id, ok := l.X.(*ast.Ident); ok {
+				if v, ok := c.lookup(id.Name); ok && v.ty.elem() != nil {
+					i, ti := t.expr(l.Index, *c, &out)
+					t.coerce(l.Index, i, ti, gcK("int"))
+					x, ty := t.expr(s.Rhs[0], *c, &out)
+					x = t.coerce(s.Rhs[0], x, ty, v.ty.elem())
+					out = append(out, fmt.Sprintf("do %s <- gc_update %s %s %s;", v.coq, v.coq, i, x))
+					return out, true
+				}
+			}
+		}
+		return nil, false
+	case *ast.DeclStmt:
+		gd, ok := s.Decl.(*ast.GenDecl)
+		if !ok || gd.Tok != token.VAR {
+			return nil, false
+		}
+		for _, sp := range gd.Specs {
+			vs := sp.(*ast.ValueSpec)
+			if vs.Type == nil || len(vs.Values) != 0 {
+				return nil, false
+			}
+			ty := t.resolve(vs.Type)
+			z, ok := ty.zero()
+			if !ok {
+				t.fail(st, "var of a type without zero in the scheme")
+			}
+			for _, id := range vs.Names {
+				name := t.declare(id, c, id.Name, ty)
+				out = append(out, fmt.Sprintf("let %s := %s in", name, z))
+			}
+		}
+		return out, true
+	case *ast.IncDecStmt:
+		id, ok := s.X.(*ast.Ident)
+		if !ok {
+			return nil, false
+		}
+		v, ok := c.lookup(id.Name)
+		if !ok || v.ty.k != "int" {
+			return nil, false
+		}
+		op := "+"
+		if s.Tok == token.DEC {
+			op = "-"
+		}
+		out = append(out, fmt.Sprintf("let %s := (%s %s 1) in", v.coq, v.coq, op))
+		return out, true
+	case *ast.ExprStmt:
+		ce, ok := s.X.(*ast.CallExpr)
+		if !ok || t.src(ce.Fun) != "copy" || len(ce.Args) != 2 {
+			return nil, false
+		}
+		id, ok := ce.Args[0].(*ast.Ident)
+		if !ok {
+			return nil, false
+		}
+		v, ok := c.lookup(id.Name)
+		if !ok || v.ty.elem() == nil {
+			return nil, false
+		}
+		x, ty := t.expr(ce.Args[1], *c, &out)
+		t.coerce(ce.Args[1], x, ty, v.ty)
+		out = append(out, fmt.Sprintf("let %s := gc_copy %s %s in", v.coq, v.coq, x))
+		return out, true
+	}
+	return nil, false
+}
+
+func gcRestrict(inner, outer gcCtx) gcCtx {
+	r := outer
+	_ = inner
+	return r
+}
+
+func gcJoin(lines []string, last string) string {
+	return strings.Join(append(append([]string{}, lines...), last), "\n")
+}
+
+// typeAssert recognises  v, ok := x.(T); ok
+func (t *gcTr) typeAssert(x *ast.IfStmt) (v string, scrut ast.Expr, im *gcImpl, ok bool) {
+	as, isAs := x.Init.(*ast.AssignStmt)
+	if !isAs || as.Tok != token.DEFINE || len(as.Lhs) != 2 || len(as.Rhs) != 1 {
+		return
+	}
+	ta, isTa := as.Rhs[0].(*ast.TypeAssertExpr)
+	if !isTa || ta.Type == nil {
+		return
+	}
+	v0, ok0 := as.Lhs[0].(*ast.Ident)
+	v1, ok1 := as.Lhs[1].(*ast.Ident)
+	cond, okc := x.Cond.(*ast.Ident)
+	if !ok0 || !ok1 || !okc || cond.Name != v1.Name {
+		return
+	}
+	im = gcImplOf(t.src(ta.Type))
+	if im == nil || !im.opaque {
+		return
+	}
+	return v0.Name, ta.X, im, true
+}
+
+func (t *gcTr) stmts(list []ast.Stmt, c gcCtx, k func(gcCtx) string) string {
+	if len(list) == 0 {
+		return k(c)
+	}
+	st, rest := list[0], list[1:]
+	cont := func(c2 gcCtx) string { return t.stmts(rest, c2, k) }
+	if lines, ok := t.simple(st, &c); ok {
+		return gcJoin(lines, cont(c))
+	}
+	switch x := st.(type) {
+	case *ast.ReturnStmt:
+		if len(rest) != 0 {
+			t.fail(st, "statements after return")
+		}
+		if len(x.Results) != 1 {
+			t.fail(st, "return without exactly one value")
+			return "Panic"
+		}
+		var pre []string
+		y, ty := t.expr(x.Results[0], c, &pre)
+		y = t.coerce(x.Results[0], y, ty, t.f.res)
+		return gcJoin(pre, "Ok "+y)
+	case *ast.IfStmt:
+		return t.ifStmt(x, c, cont)
+	case *ast.RangeStmt:
+		return t.rangeStmt(x, c, cont)
+	case *ast.BlockStmt:
+		return t.stmts(x.List, c, func(c2 gcCtx) string { return cont(gcRestrict(c2, c)) })
+	}
+	t.fail(st, "statement outside the scheme: %s", strings.SplitN(t.src(st), "\n", 2)[0])
+	return "Panic"
+}
+
+func gcElse(x *ast.IfStmt) ([]ast.Stmt, bool) {
+	switch e := x.Else.(type) {
+	case nil:
+		return nil, true
+	case *ast.BlockStmt:
+		return e.List, true
+	case *ast.IfStmt:
+		return []ast.Stmt{e}, true
+	}
+	return nil, false
+}
+
+func gcEndsInReturn(list []ast.Stmt) bool {
+	if len(list) == 0 {
+		return false
+	}
+	_, ok := list[len(list)-1].(*ast.ReturnStmt)
+	return ok
+}
+
+func (t *gcTr) ifStmt(x *ast.IfStmt, c gcCtx, cont func(gcCtx) string) string {
+	els, ok := gcElse(x)
+	if !ok {
+		t.fail(x, "else outside the scheme")
+		return "Panic"
+	}
+	var pre []string
+	var head, mid string
+	cThen := c
+	if x.Init != nil {
+		v, scrutE, im, ok := t.typeAssert(x)
+		if !ok {
+			t.fail(x, "if with an init statement that is not  v, ok := x.(Filter); ok")
+			return "Panic"
+		}
+		s, ty := t.expr(scrutE, c, &pre)
+		t.coerce(scrutE, s, ty, gcK("clause"))
+		name := t.declare(x, &cThen, v, gcK("leaf"))
+		head = fmt.Sprintf("match %s with\n| gc_mk_%s %s =>", s, im.name, name)
+		mid = "| _ =>"
+	} else {
+		cond, ty := t.expr(x.Cond, c, &pre)
+		t.coerce(x.Cond, cond, ty, gcK("bool"))
+		head = fmt.Sprintf("if %s then", cond)
+		mid = "else"
+	}
+	end := ""
+	if x.Init != nil {
+		end = "\nend"
+	}
+	if gcContainsReturn(x) {
+		thenFalls, elseFalls := !gcEndsInReturn(x.Body.List), !gcEndsInReturn(els)
+		if thenFalls && elseFalls {
+			t.fail(x, "an if with a return inside of which both branches can fall through")
+		}
+		back := func(c2 gcCtx) string { return cont(gcRestrict(c2, c)) }
+		a := t.stmts(x.Body.List, cThen, back)
+		b := t.stmts(els, c, back)
+		return gcJoin(pre, fmt.Sprintf("%s\n%s\n%s\n%s%s", head, gsIndent(a), mid, gsIndent(b), end))
+	}
+	nodes := []ast.Node{x.Body}
+	if x.Else != nil {
+		nodes = append(nodes, x.Else)
+	}
+	res := t.assigned(c, nodes...)
+	if len(res) == 0 {
+		t.fail(x, "an if without return that stores into no outer variable")
+	}
+	inner := c
+	inner.top = false
+	innerThen := cThen
+	innerThen.top = false
+	exit := func(c2 gcCtx) string { return "Ok " + gcTuple(gcCoqNames(res)) }
+	a := t.stmts(x.Body.List, innerThen, exit)
+	b := t.stmts(els, inner, exit)
+	line := fmt.Sprintf("do %s <- (\n%s\n%s\n%s\n%s%s);", gcTuple(gcCoqNames(res)), gsIndent(head), gsIndent(gsIndent(a)), gsIndent(mid), gsIndent(gsIndent(b)), gsIndent(end))
+	return gcJoin(pre, line+"\n"+cont(c))
+}
+
+// every variable of the context as (coq name, type), receivers expanded into their fields
+func gcFlatVars(c gcCtx) []gcVar {
+	var out []gcVar
+	seen := map[string]bool{}
+	for i := len(c.vars) - 1; i >= 0; i-- {
+		v := c.vars[i]
+		if seen[v.name] {
+			continue
+		}
+		seen[v.name] = true
+		if v.ty.k == "struct" && v.coq == "" {
+			fs := gcImplOf(v.ty.sname).fields
+			for j := len(fs) - 1; j >= 0; j-- {
+				out = append([]gcVar{{v.name + "." + fs[j].name, v.name + "_" + fs[j].name, fs[j].ty}}, out...)
+			}
+			continue
+		}
+		out = append([]gcVar{v}, out...)
+	}
+	return out
+}
+
+func (t *gcTr) selfType() string {
+	switch t.f.group {
+	case "Err":
+		return "gc_FilterClause -> outcome (option E)"
+	case "filter":
+		return "gc_FilterClause -> F -> outcome F"
+	}
+	return "unit"
+}
+
+func (t *gcTr) rangeStmt(x *ast.RangeStmt, c gcCtx, cont func(gcCtx) string) string {
+	if x.Tok != token.DEFINE {
+		t.fail(x, "range without :=")
+		return "Panic"
+	}
+	var pre []string
+	xs, tx := t.expr(x.X, c, &pre)
+	el := tx.elem()
+	if el == nil {
+		t.fail(x, "range over something that is not a slice: %s", t.src(x.X))
+		return "Panic"
+	}
+	body := c
+	body.top = false
+	keyName, valName := "", "_"
+	check := func(n ast.Expr) string {
+		id, ok := n.(*ast.Ident)
+		if !ok {
+			t.fail(x, "range variable that is not an identifier")
+			return "_"
+		}
+		if v, ok := c.lookup(id.Name); ok && v.coq != "" && id.Name != "_" {
+			t.fail(x, "the range variable %s shadows a variable", id.Name)
+		}
+		return id.Name
+	}
+	if x.Key != nil {
+		if n := check(x.Key); n != "_" {
+			keyName = t.declare(x, &body, n, gcK("int"))
+		}
+	}
+	if x.Value != nil {
+		if n := check(x.Value); n != "_" {
+			valName = t.declare(x, &body, n, el)
+			as, _ := gcAssignedNames(x.Body)
+			if r := gcRootIdent(x.X); r != "" && as[r] {
+				t.fail(x, "the body stores into the slice it ranges over by value")
+			}
+		}
+	}
+	hasRet := gcContainsReturn(x.Body)
+	res := t.assigned(c, x.Body)
+	if hasRet && !c.top {
+		t.fail(x, "a loop with a return inside that is not at the top level of the function")
+	}
+	const hole = "@LOOPARGS@"
+	bodyText := t.stmts(x.Body.List, body, func(c2 gcCtx) string {
+		call := "loop l'"
+		if keyName != "" {
+			call += " (" + keyName + " + 1)"
+		}
+		return call + hole
+	})
+	var exit, rty string
+	if hasRet {
+		exit = cont(c)
+		rty = t.f.res.coq()
+	} else {
+		exit = "Ok " + gcTuple(gcCoqNames(res))
+		rty = gcTypeTuple(gcCoqTypes(res))
+	}
+	// the variables the loop takes
+	var params []gcVar
+	isRes := map[string]bool{}
+	for _, v := range res {
+		isRes[v.coq] = true
+	}
+	for _, v := range gcFlatVars(c) {
+		if isRes[v.coq] || gsMentions(bodyText, v.coq) || gsMentions(exit, v.coq) {
+			params = append(params, v)
+		}
+	}
+	args := ""
+	sig := ""
+	tys := ""
+	for _, v := range params {
+		args += " " + v.coq
+		sig += fmt.Sprintf(" (%s : %s)", v.coq, v.ty.coq())
+		tys += v.ty.coq() + " -> "
+	}
+	bodyText = strings.ReplaceAll(bodyText, hole, args)
+	usesSelf := gsMentions(bodyText, "self") || gsMentions(exit, "self")
+	t.nloops++
+	name := fmt.Sprintf("%s_loop%d", t.f.coq, t.nloops)
+	selfSig, selfArg := "", ""
+	if usesSelf {
+		selfSig = " (self : " + t.selfType() + ")"
+		selfArg = " self"
+	}
+	keySig, keyTy, keyArg := "", "", ""
+	if keyName != "" {
+		keySig, keyTy, keyArg = " ("+keyName+" : Z)", "Z -> ", " 0"
+	}
+	var b strings.Builder
+	fmt.Fprintf(&b, "Definition %s%s : list %s -> %s%soutcome %s :=\n", name, selfSig, el.coq(), keyTy, tys, rty)
+	fmt.Fprintf(&b, "  fix loop (l : list %s)%s%s {struct l} : outcome %s :=\n", el.coq(), keySig, sig, rty)
+	fmt.Fprintf(&b, "  match l with\n  | [] =>\n%s\n  | %s :: l' =>\n%s\n  end.\n", gsIndent(gsIndent(exit)), valName, gsIndent(gsIndent(bodyText)))
+	t.loops = append(t.loops, b.String())
+	call := name + selfArg + " " + xs + keyArg + args
+	if hasRet {
+		return gcJoin(pre, call)
+	}
+	return gcJoin(pre, fmt.Sprintf("do %s <- %s;\n%s", gcTuple(gcCoqNames(res)), call, cont(c)))
+}
+
+// ------------------------------------------------------------------ functions
+
+func gcCoqName(fn string) string { return "gc_" + strings.ReplaceAll(fn, ".", "_") }
+
+func gcSignature(p *pkgInfo, f *gcFunc) bool {
+	t := &gcTr{p: p, f: f}
+	fd := f.fd
+	if fd.Recv != nil {
+		if len(fd.Recv.List) != 1 || len(fd.Recv.List[0].Names) > 1 {
+			t.fail(fd, "receiver outside the scheme")
+			return false
+		}
+		ty := t.resolve(fd.Recv.List[0].Type)
+		name := "_"
+		if len(fd.Recv.List[0].Names) == 1 {
+			name = fd.Recv.List[0].Names[0].Name
+		}
+		v := gcVar{name, "v_" + name, ty}
+		if ty.k == "struct" {
+			v.coq = ""
+			f.impl = gcImplOf(ty.sname)
+		}
+		if ty.k == "leaf" {
+			f.impl = gcImplOf("Filter")
+		}
+		f.recv = &v
+	}
+	for _, fl := range fd.Type.Params.List {
+		ty := t.resolve(fl.Type)
+		if _, isEll := fl.Type.(*ast.Ellipsis); isEll {
+			ty = gcResolve(f.spec.pkg, f.numeric, t.src(fl.Type))
+		}
+		for _, n := range fl.Names {
+			f.params = append(f.params, gcVar{n.Name, "v_" + n.Name, ty})
+		}
+		if len(fl.Names) == 0 {
+			t.fail(fd, "parameter without name")
+		}
+	}
+	if fd.Type.Results == nil || len(fd.Type.Results.List) != 1 || len(fd.Type.Results.List[0].Names) != 0 {
+		t.fail(fd, "the function must have exactly one unnamed result")
+		return false
+	}
+	f.res = t.resolve(fd.Type.Results.List[0].Type)
+	return !t.bad
+}
+
+func gcSource(p *pkgInfo, fd *ast.FuncDecl) string {
+	cp := *fd
+	cp.Doc = nil
+	s := gcSrc(p.fset, &cp)
+	s = strings.ReplaceAll(s, "(*", "( *")
+	s = strings.ReplaceAll(s, "*)", "* )")
+	s = strings.ReplaceAll(s, "\"", "'")
+	return s
+}
+
+func gcTranslate(p *pkgInfo, f *gcFunc) {
+	t := &gcTr{p: p, f: f, addrOf: map[string]bool{}}
+	c := gcCtx{top: true}
+	var sig []string
+	if f.recv != nil {
+		c.vars = append(c.vars, *f.recv)
+		if f.recv.coq == "" {
+			for _, fl := range gcImplOf(f.recv.ty.sname).fields {
+				sig = append(sig, fmt.Sprintf("(%s_%s : %s)", f.recv.name, fl.name, fl.ty.coq()))
+			}
+		} else if f.recv.name != "_" {
+			sig = append(sig, fmt.Sprintf("(%s : %s)", f.recv.coq, f.recv.ty.coq()))
+		} else {
+			sig = append(sig, fmt.Sprintf("(_ : %s)", f.recv.ty.coq()))
+		}
+	}
+	for _, v := range f.params {
+		c.vars = append(c.vars, v)
+		sig = append(sig, fmt.Sprintf("(%s : %s)", v.coq, v.ty.coq()))
+	}
+	body := t.stmts(f.fd.Body.List, c, func(c2 gcCtx) string {
+		t.fail(f.fd, "the function can fall off its end")
+		return "Panic"
+	})
+	as, _ := gcAssignedNames(f.fd.Body)
+	for n := range t.addrOf {
+		if as[n] {
+			t.fail(f.fd, "the variable %s has its address taken and is stored into", n)
+		}
+	}
+	f.needsSelf = t.usesSelf
+	if f.needsSelf {
+		sig = append([]string{"(self : " + t.selfType() + ")"}, sig...)
+	}
+	var b strings.Builder
+	pk := f.spec.pkg
+	if pk == gcRoot {
+		pk = "qframe"
+	}
+	fmt.Fprintf(&b, "(* %s\n%s *)\n", pk, gcSource(p, f.fd))
+	for _, l := range t.loops {
+		b.WriteString(l)
+	}
+	sep := " "
+	if len(sig) == 0 {
+		sep = ""
+	}
+	fmt.Fprintf(&b, "Definition %s%s%s : outcome %s :=\n%s.\n", f.coq, sep, strings.Join(sig, " "), f.res.coq(), gsIndent(body))
+	f.text = b.String()
+	f.ok = !t.bad
+}
+
+// gcDispatcher: the structural Fixpoint for one interface method
+func gcDispatcher(m string) (string, bool) {
+	ok := true
+	var b strings.Builder
+	sig, rty, extra := "(c : gc_FilterClause)", "(option E)", ""
+	if m == "filter" {
+		sig, rty, extra = "(c : gc_FilterClause) (qf : F)", "F", " qf"
+	}
+	fmt.Fprintf(&b, "(* x.%s(..) for x of the interface type FilterClause: dynamic dispatch *)\n", m)
+	fmt.Fprintf(&b, "Fixpoint gc_FilterClause_%s %s {struct c} : outcome %s :=\n  match c with\n", m, sig, rty)
+	for _, im := range gcImpls {
+		g := gcFuncs[gcRoot+":"+im.name+"."+m]
+		if g == nil || g.text == "" {
+			ok = false
+			continue
+		}
+		pat := []string{"gc_mk_" + im.name}
+		call := []string{g.coq}
+		if g.needsSelf {
+			call = append(call, "gc_FilterClause_"+m)
+		}
+		if im.opaque {
+			pat = append(pat, "x")
+			call = append(call, "x")
+		}
+		for _, f := range im.fields {
+			pat = append(pat, "x_"+f.name)
+			call = append(call, "x_"+f.name)
+		}
+		fmt.Fprintf(&b, "  | %s => %s%s\n", strings.Join(pat, " "), strings.Join(call, " "), extra)
+	}
+	b.WriteString("  end.\n")
+	return b.String(), ok
+}
+
+func genFilterClause() string {
+	gcFuncs = map[string]*gcFunc{}
+	gcDispatcherDone = map[string]bool{}
+	root := loadPkg(gcRoot)
+	ixp := loadPkg(gcIndexPkg)
+	pkgOf := func(dir string) *pkgInfo {
+		if dir == gcIndexPkg {
+			return ixp
+		}
+		return root
+	}
+	// the vocabulary
+	for _, v := range gcVocabulary {
+		vp := loadPkg(v.pkg)
+		fd, ok := vp.funcs[v.fn]
+		if !ok || fd.Body == nil {
+			problem("filter clause translation: %s not found in %s", v.fn, v.pkg)
+			continue
+		}
+		cp := *fd
+		cp.Doc = nil
+		if !strings.Contains(v.text, "{\n") {
+			cp.Body = nil
+		}
+		if gcSrc(vp.fset, &cp) != v.text {
+			problem("filter clause translation: %s of %s is not the text the fixed vocabulary of the translation stands for", v.fn, v.pkg)
+		}
+	}
+	if f, ok := root.files["filter.go"]; ok {
+		found := false
+		for _, d := range f.Decls {
+			if gd, ok := d.(*ast.GenDecl); ok && gd.Tok == token.TYPE {
+				for _, s := range gd.Specs {
+					ts := s.(*ast.TypeSpec)
+					if ts.Name.Name == "Filter" && gcSrc(root.fset, ts.Type) == "filter.Filter" {
+						found = true
+					}
+				}
+			}
+		}
+		if !found {
+			problem("filter clause translation: type Filter filter.Filter not found")
+		}
+	}
+	implsOk := gcLoadImpls(root)
+
+	golden := ""
+	if fl := flag.Lookup("golden"); fl != nil && fl.Value.String() != "" {
+		if gb, err := os.ReadFile(filepath.Join(fl.Value.String(), "GenFilterClause.v")); err == nil {
+			golden = string(gb)
+		}
+	}
+	var b strings.Builder
+	b.WriteString(gcPreamble)
+	block := func(name, text string, ok bool) {
+		if !ok {
+			old, found := gfGoldenBlock(golden, name)
+			if !found {
+				return
+			}
+			text = "(* FALLBACK " + name + ": not derivable from the current source; text of the last validated tree *)\n" + old
+		}
+		fmt.Fprintf(&b, "(* BEGIN %s *)\n%s(* END %s *)\n\n", name, text, name)
+	}
+	mk := func(sp gcSpec, group string) *gcFunc {
+		short := sp.fn[strings.LastIndex(sp.fn, ".")+1:]
+		f := &gcFunc{spec: sp, short: short, coq: gcCoqName(sp.fn), group: group, numeric: gcNumericIds[sp.fn]}
+		gcFuncs[sp.pkg+":"+sp.fn] = f
+		p := pkgOf(sp.pkg)
+		fd, ok := p.funcs[sp.fn]
+		if !ok || fd.Body == nil {
+			problem("filter clause translation: function %s not found in %s", sp.fn, sp.pkg)
+			return f
+		}
+		f.fd = fd
+		if !gcSignature(p, f) {
+			f.fd = nil
+		}
+		return f
+	}
+	run := func(fs []*gcFunc) {
+		for _, f := range fs {
+			if f.fd != nil {
+				gcTranslate(pkgOf(f.spec.pkg), f)
+			}
+			f.done = true
+			block(f.coq, f.text, f.ok)
+		}
+	}
+	var ixs, early, late []*gcFunc
+	for _, sp := range gcIndexSpecs {
+		ixs = append(ixs, mk(sp, ""))
+	}
+	run(ixs)
+	block("gc_FilterClause", gcInductive(), implsOk)
+	for _, sp := range gcEarlySpecs {
+		early = append(early, mk(sp, ""))
+	}
+	groups := map[string][]*gcFunc{}
+	for _, m := range gcGroups {
+		for _, im := range gcImpls {
+			groups[m] = append(groups[m], mk(gcSpec{gcRoot, im.name + "." + m}, m))
+		}
+	}
+	for _, sp := range gcLateSpecs {
+		late = append(late, mk(sp, ""))
+	}
+	run(early)
+	for _, m := range gcGroups {
+		run(groups[m])
+		text, ok := gcDispatcher(m)
+		gcDispatcherDone[m] = true
+		block("gc_FilterClause_"+m, text, ok)
+	}
+	run(late)
+	b.WriteString("End GenFilterClause.\n")
+	return b.String()
+}
